@@ -811,3 +811,7 @@ ba r",
         })
     }
 }
+
+#[cfg(kani)]
+#[path = "/verif/kani/rten-text/bpe.rs"]
+mod verif_kani;
